@@ -1,6 +1,6 @@
 """check configuration for C04 (see lib/vcheck.py)"""
 CONFIG = dict(
-    claim="Machine-checked proof over an executable model of the address-translation core of pe.rs: for every section table (any number of sections, any u32 field values including wrapping VirtualAddress+size and raw ranges) and every RVA / file offset / (min_size, align) request, the first-match section walk with its wrapping and checked arithmetic equals the loop-free PE mapping rule of Spec/MappingSpec.v (C04_rva_to_file_offset, C04_file_offset_to_rva, C04_slice_file), a successful slice starts at PRD+(rva-VA) of the first containing section and ends where its raw data ends inside the buffer (C04_slice_file_ok), a request for more never succeeds, and offset->rva inverts rva->offset on stored, mapped, unaliased bytes (with the impossibility lemma for aliased ones). Tied to /repo by the correspondence check on generated section tables with boundary-enumerated queries, and by evaluating the spec on the implementation's results.",
+    claim="Machine-checked proof over an executable model of the address-translation core of pe.rs: for every section table (any number of sections, any u32 field values including wrapping VirtualAddress+size and raw ranges) and every RVA / file offset / (min_size, align) request, the first-match section walk with its wrapping and checked arithmetic equals the loop-free PE mapping rule of Spec/MappingSpec.v (C04_rva_to_file_offset, C04_file_offset_to_rva, C04_slice_file), a successful slice starts at PRD+(rva-VA) of the first containing section and ends where its raw data ends inside the buffer (C04_slice_file_ok), a request for more never succeeds, and offset->rva inverts rva->offset on stored, mapped, unaliased bytes (aliased bytes are excluded by hypothesis: no function can invert two RVAs that map to one offset, which C04_inverse_impossible_when_aliased records as the trivial fact it is). Tied to /repo by the correspondence check on generated section tables with boundary-enumerated queries, and by evaluating the spec on the implementation's results.",
     note="Trusted: Coq kernel, extraction and glue, the generator's own header writer (the model takes the decoded section table from the generator, so pelite's header decoding is exercised too). The model is hand-written; the correspondence is differential testing bounded by its generator.",
     bin="views", driver="views_driver", model_ml="views_model", driver_includes=["image.ml"], driver_args=["C04"], extract=["Views"], shrink_fields=["q"],
     quick_cases=3000, thorough_cases=150000, case_seconds=5,
